@@ -23,9 +23,9 @@ class Speller:
         for i, ch in enumerate(s):
             k = self.r.random()
             if k < 0.25 * self.level:
-                out += '\\%x ' % ord(ch)
+                out += '\\%x' % ord(ch) + self.r.choice([' ', ' ', '\t', '\n', '\r\n', '\f'])
             elif k < 0.35 * self.level:
-                out += '\\%06x ' % ord(ch)
+                out += '\\%06x' % ord(ch) + self.r.choice([' ', '\r\n', '\n'])
             elif k < 0.45 * self.level and ch in HEXSAFE:
                 out += '\\' + ch
             else:
@@ -34,6 +34,17 @@ class Speller:
 
     def case(self, s):
         return ''.join((c.upper() if self.r.random() < 0.5 * self.level else c) for c in s)
+
+    def name(self, s):
+        """A pseudo-class name: case variants, occasionally with a character written as an escape."""
+        t = self.case(s)
+        if self.r.random() < 0.3 * self.level:
+            i = self.r.randrange(len(t))
+            ch = t[i]
+            if ch != '-' or i > 0:
+                esc = ('\\%x ' % ord(ch)) if (self.r.random() < 0.6 or ch not in HEXSAFE) else ('\\' + ch)
+                t = t[:i] + esc + t[i + 1:]
+        return t
 
     def value(self, v):
         """Attribute operand / string argument: double quotes, single quotes, or bare identifier when possible."""
@@ -94,15 +105,15 @@ def compound(sp, c):
 def pseudo(sp, p):
     k = p[0]
     if k in ('not', 'is', 'where', 'matches'):
-        return ':' + sp.case(k) + '(' + sp.opt() + (sp.opt() + ',' + sp.opt()).join(complex_(sp, cx) for cx in p[1]) + sp.opt() + ')'
+        return ':' + sp.name(k) + '(' + sp.opt() + (sp.opt() + ',' + sp.opt()).join(complex_(sp, cx) for cx in p[1]) + sp.opt() + ')'
     if k == 'has':
         parts = []
         for comb, cx in p[1]:
             parts.append((comb.strip() + sp.opt() if comb.strip() else '') + complex_(sp, cx))
-        return ':' + sp.case('has') + '(' + sp.opt() + (sp.opt() + ',' + sp.opt()).join(parts) + sp.opt() + ')'
+        return ':' + sp.name('has') + '(' + sp.opt() + (sp.opt() + ',' + sp.opt()).join(parts) + sp.opt() + ')'
     if k == 'nth':
         _, kind, a, b, of_s = p
-        s = ':' + sp.case(kind) + '(' + sp.opt() + render_anb(sp, a, b)
+        s = ':' + sp.name(kind) + '(' + sp.opt() + render_anb(sp, a, b)
         if of_s is not None:
             s += sp.req() + sp.case('of') + sp.req() + (sp.opt() + ',' + sp.opt()).join(complex_(sp, cx) for cx in of_s)
         return s + sp.opt() + ')'
@@ -111,12 +122,12 @@ def pseudo(sp, p):
     if k == 'custom':
         return sp.case(p[1])
     if k == 'lang':
-        return ':' + sp.case('lang') + '(' + sp.opt() + (sp.opt() + ',' + sp.opt()).join(sp.value(v) for v in p[1]) + sp.opt() + ')'
+        return ':' + sp.name('lang') + '(' + sp.opt() + (sp.opt() + ',' + sp.opt()).join(sp.value(v) for v in p[1]) + sp.opt() + ')'
     if k == 'dir':
-        return ':' + sp.case('dir') + '(' + sp.opt() + sp.case(p[1]) + sp.opt() + ')'
+        return ':' + sp.name('dir') + '(' + sp.opt() + sp.case(p[1]) + sp.opt() + ')'
     if k == 'contains':
-        return ':' + sp.case(p[1]) + '(' + sp.opt() + (sp.opt() + ',' + sp.opt()).join(sp.value(v) for v in p[2]) + sp.opt() + ')'
-    return ':' + sp.case(k)
+        return ':' + sp.name(p[1]) + '(' + sp.opt() + (sp.opt() + ',' + sp.opt()).join(sp.value(v) for v in p[2]) + sp.opt() + ')'
+    return ':' + sp.name(k)
 
 
 def complex_(sp, cx):
